@@ -306,6 +306,10 @@ def work(unit):
             return
         kind, detail = r
         res.outcome(kind)
+        if res.stats.get('failures_in_unit', 0) >= 25:
+            res.count('failures_not_recorded')      # same unit, same root causes: counted, not written out
+            return
+        res.count('failures_in_unit')
         sig = '|'.join([kind, codec, label])
         res.failures.append(new_failure(ID, kind, sig, codec=codec, detail=detail, family=label, how=how,
                                         input=data.hex() if len(data) <= 400 else data[:200].hex() + '...',
